@@ -499,7 +499,7 @@ pub fn run(a: &Args) -> i32 {
     surrealkv::verif::set_manual_background(true);
     let root = crate::e1::scratch_root();
     let _ = std::fs::create_dir_all(&root);
-    let seqs = a.tier.pick(40, 600);
+    let seqs = a.tier.pick(40, 6000);
     let found: std::sync::Mutex<Vec<(J, Problem)>> = std::sync::Mutex::new(vec![]);
     let total: std::sync::Mutex<Stats> = std::sync::Mutex::new(Stats::default());
     let samples: std::sync::Mutex<Vec<J>> = std::sync::Mutex::new(vec![]);
